@@ -42,6 +42,13 @@ def items(only):
         props = REFACTOR_PROPS.get(f[:-5])
         if props:
             out.append(("refactor/" + f[:-5], os.path.join(rd, f), props, "pass"))
+    # harmless refactorings written by independent sub-agents: every property's check must stay silent
+    ad = os.path.join(ROOT, "selftest", "refactors-agent")
+    if os.path.isdir(ad):
+        allp = ["C%02d" % k for k in range(1, 21)]
+        for f in sorted(os.listdir(ad)):
+            if f.endswith(".diff"):
+                out.append(("refactor-agent/" + f[:-5], os.path.join(ad, f), allp, "pass"))
     return [i for i in out if not only or only in i[0]]
 
 
